@@ -434,6 +434,20 @@ class Inputs:
     """Class for parsing and validating input items."""
 
     @staticmethod
+    def to_int(digits: str) -> int:
+        """
+        Convert a string of decimal digits of any length.
+
+        A year may have any number of digits, but `int()` refuses more than `sys.get_int_max_str_digits()` at once.
+        """
+
+        value = 0
+        for i in range(0, len(digits), 4000):
+            chunk = digits[i:i + 4000]
+            value = value * 10 ** len(chunk) + int(chunk, 10)
+        return value
+
+    @staticmethod
     def validate_day(year: int, month: int, day: int) -> bool:
         """Validate day."""
 
@@ -488,7 +502,7 @@ class Inputs:
         if itype == "date":
             m = RE_DATE.match(value)
             if m:
-                year = int(m.group('year'), 10)
+                year = cls.to_int(m.group('year'))
                 month = int(m.group('month'), 10)
                 day = int(m.group('day'), 10)
                 if cls.validate_year(year) and cls.validate_month(month) and cls.validate_day(year, month, day):
@@ -496,14 +510,14 @@ class Inputs:
         elif itype == "month":
             m = RE_MONTH.match(value)
             if m:
-                year = int(m.group('year'), 10)
+                year = cls.to_int(m.group('year'))
                 month = int(m.group('month'), 10)
                 if cls.validate_year(year) and cls.validate_month(month):
                     parsed = (year, month)
         elif itype == "week":
             m = RE_WEEK.match(value)
             if m:
-                year = int(m.group('year'), 10)
+                year = cls.to_int(m.group('year'))
                 week = int(m.group('week'), 10)
                 if cls.validate_year(year) and cls.validate_week(year, week):
                     parsed = (year, week)
@@ -517,7 +531,7 @@ class Inputs:
         elif itype == "datetime-local":
             m = RE_DATETIME.match(value)
             if m:
-                year = int(m.group('year'), 10)
+                year = cls.to_int(m.group('year'))
                 month = int(m.group('month'), 10)
                 day = int(m.group('day'), 10)
                 hour = int(m.group('hour'), 10)
